@@ -777,13 +777,57 @@ static void vf_native(void)
                 canaries=[{"fn": f.name, "rx": r"total \+= v;", "rp": "total = v;", "expect": r"VH_cumul\.(postcondition|loop_invariant_step)"}])
 
 
+def unit_is_equal_int(nmax=5):
+    pre = BOOL + """
+#define NMAX %d
+#define I1_ ((long)(__CPROVER_POINTER_OFFSET(it1) / 4))
+#define I2_ ((long)(__CPROVER_POINTER_OFFSET(it2) / 4))
+""" % nmax
+    allp = lambda upto: AND("(%d >= %s || W_ivec[%d] == W_ivec2[%d])" % (k, upto, k, k) for k in range(nmax))
+    contract = "\n".join([
+        "__CPROVER_requires(0 <= v1_size && v1_size <= NMAX && 0 <= v2_size && v2_size <= NMAX && v1 == W_ivec && v2 == W_ivec2)",
+        "__CPROVER_assigns()",
+        "__CPROVER_ensures(__CPROVER_return_value == (v1_size == v2_size && %s))" % allp("v1_size"),
+    ])
+    loop = "\n".join([
+        "__CPROVER_assigns(it1, it2)",
+        "__CPROVER_loop_invariant(v1_size == v2_size && __CPROVER_same_object(it1, W_ivec) && __CPROVER_same_object(it2, W_ivec2) && __CPROVER_POINTER_OFFSET(it1) % 4 == 0 && __CPROVER_POINTER_OFFSET(it2) % 4 == 0)",
+        # the two walks designate the same rank
+        "__CPROVER_loop_invariant(0 <= I1_ && I1_ <= v1_size && I2_ == I1_)",
+        "__CPROVER_loop_invariant(%s)" % allp("I1_"),
+        "__CPROVER_decreases(v1_size - I1_)",
+    ])
+    f = Fn("VectorHelper::isEqual(VectorInt)", "src/Basic/VectorHelper.cpp", r"^bool VectorHelper::isEqual\(const VectorInt &v1, const VectorInt &v2\)\s*$",
+           csig="bool VH_isEqual_int(const int* v1, int v1_size, const int* v2, int v2_size)", contract=contract, loops={1: loop}, nloops=1,
+           rewrites=[(r"v1\.size\(\) != v2\.size\(\)", "v1_size != v2_size", 1),
+                     (r"VectorInt::const_iterator it1\(v1\.begin\(\)\);", "const int* it1 = v1;", 1),
+                     (r"VectorInt::const_iterator it2\(v2\.begin\(\)\);", "const int* it2 = v2;", 1),
+                     (r"v1\.end\(\)", "(v1 + v1_size)", 1)])
+    h = "\nvoid vf_harness(void)\n{\n  vf_havoc_inputs();\n  VH_isEqual_int(W_ivec, W_n, W_ivec2, W_n2);\n  VF_REACH();\n}\n"
+    native = r"""
+static void vf_native(void)
+{
+  if (!(0 <= W_n && W_n <= NMAX && 0 <= W_n2 && W_n2 <= NMAX)) exit(77);
+  int r = VH_isEqual_int(W_ivec, W_n, W_ivec2, W_n2), e = (W_n == W_n2);
+  for (int k = 0; e && k < W_n; k++) if (W_ivec[k] != W_ivec2[k]) e = 0;
+  __CPROVER_assert(r == e, "true exactly when the two vectors have the same length and the same elements");
+}
+"""
+    return Unit("C11.VH.isEqual.int", [f], prelude=pre, harness=h, native=native, pre_inputs=BOOL, defines={"NMAX": nmax},
+                inputs=[("int", "W_ivec", "NMAX"), ("int", "W_ivec2", "NMAX"), ("int", "W_n"), ("int", "W_n2")], enforce="VH_isEqual_int",
+                backends=("minisat", "cadical"), timeout=600, fallback_unwind=nmax + 2,
+                claim="VH::isEqual(VectorInt, VectorInt) returns true exactly when the two vectors have the same length and equal elements rank by rank (the two walks stay at the same rank and inside their vectors); nothing written; loop closed by invariant (length <= %d)" % nmax,
+                assumptions=["at most %d elements (quantifier range)" % nmax, "const VectorInt& -> (const int*, int); const_iterator -> const int*"],
+                canaries=[{"fn": f.name, "rx": r"    it2\+\+;\n", "rp": "", "expect": r"VH_isEqual_int\.(postcondition|loop_invariant_step)"}])
+
+
 def units(tier):
-    return [unit_dense_dims(), unit_sparse_dims(), unit_normmatrix(), unit_where("Minimum"), unit_where("Maximum"), unit_where_element(), unit_extremum("maximum"), unit_extremum("minimum"), unit_extremum_vv("maximum"), unit_extremum_vv("minimum"), unit_extremum_int("maximum"), unit_extremum_int("minimum"), unit_is_sorted(), unit_is_constant("double"), unit_is_constant("int"), unit_count("countUndefined"), unit_count("countDefined"), unit_has_undefined(), unit_cumul()]
+    return [unit_dense_dims(), unit_sparse_dims(), unit_normmatrix(), unit_where("Minimum"), unit_where("Maximum"), unit_where_element(), unit_extremum("maximum"), unit_extremum("minimum"), unit_extremum_vv("maximum"), unit_extremum_vv("minimum"), unit_extremum_int("maximum"), unit_extremum_int("minimum"), unit_is_sorted(), unit_is_constant("double"), unit_is_constant("int"), unit_count("countUndefined"), unit_count("countDefined"), unit_has_undefined(), unit_cumul(), unit_is_equal_int()]
 
 
 META = {
     "level": "other",
-    "explanation": "(the two dimension units and the sixteen VH units (whereMinimum, whereMaximum, whereElement, isSorted, isConstant (double, int), countUndefined, countDefined, hasUndefined, cumul, maximum, minimum, their vector-of-vectors and VectorInt forms) are unbounded proofs, normMatrix.terms is a bounded stand-in, hence level 'other') Shape/index contracts of the Eigen-backed dense kernels and sparse product kernels for every shape; extremum-rank contracts of VH::whereMinimum / whereMaximum (loop invariant); numerical values, sparse storage, decompositions and thread-count independence are not decidable here.",
+    "explanation": "(the two dimension units and the seventeen VH units (isEqual (int), whereMinimum, whereMaximum, whereElement, isSorted, isConstant (double, int), countUndefined, countDefined, hasUndefined, cumul, maximum, minimum, their vector-of-vectors and VectorInt forms) are unbounded proofs, normMatrix.terms is a bounded stand-in, hence level 'other') Shape/index contracts of the Eigen-backed dense kernels and sparse product kernels for every shape; extremum-rank contracts of VH::whereMinimum / whereMaximum (loop invariant); numerical values, sparse storage, decompositions and thread-count independence are not decidable here.",
     "trusted_base": ["CBMC 6.11 C++ front end", "Eigen (numerics)", "stub classes"],
     "assumptions": [],
     "not_covered": ["values computed by Eigen/csparse", "csparse storage of MatrixSparse and its non-product methods", "Cholesky / eigen-decomposition", "thread-count independence (no thread model)",
@@ -791,7 +835,7 @@ META = {
 }
 MANIFEST = {
     "category": "other",
-    "text": "Dimension-typing contracts on the Eigen-backed kernels of AMatrixDense (18 methods) and on the Eigen-storage product kernels of MatrixSparse (9 methods): loop-free, hence for every matrix shape and both transposition flags (proved); bounded (3x3) term-coverage unit on the generic congruence product normMatrix; sixteen VectorHelper units, each loop closed by an invariant (proved, lengths <= 6): whereMinimum / whereMaximum / whereElement (rank of the extremum of the defined elements, first rank of a target), maximum / minimum in their conditional, vector-of-vectors and VectorInt forms, isSorted, isConstant, countUndefined / countDefined, hasUndefined, cumul; other values are not claimed.",
+    "text": "Dimension-typing contracts on the Eigen-backed kernels of AMatrixDense (18 methods) and on the Eigen-storage product kernels of MatrixSparse (9 methods): loop-free, hence for every matrix shape and both transposition flags (proved); bounded (3x3) term-coverage unit on the generic congruence product normMatrix; seventeen VectorHelper units, each loop closed by an invariant (proved, lengths <= 6): whereMinimum / whereMaximum / whereElement (rank of the extremum of the defined elements, first rank of a target), maximum / minimum in their conditional, vector-of-vectors and VectorInt forms, isSorted, isConstant, countUndefined / countDefined, hasUndefined, cumul, isEqual (int); other values are not claimed.",
     "note": "Trusted: Eigen preconditions as documented; numerical results N/A.",
     "design_ref": "DESIGN.md 3 C11",
 }
